@@ -12,7 +12,7 @@ def render_subjects(source_subjects: List[Any]) -> str:
     for subj in source_subjects:
         if isinstance(subj, Column):
             # a column name that is not a single word only parses back when quoted
-            subjects.append(subj.name if re.fullmatch(r'\w+', subj.name) else f'"{subj.name}"')
+            subjects.append(subj.name if re.fullmatch(r'[A-Za-z0-9_]+', subj.name) else f'"{subj.name}"')
         elif isinstance(subj, Expression):
             subjects.append(DefaultDBMLRenderer.render(subj))
         else:
